@@ -3,7 +3,16 @@ Driver / recording device it reuses, loaded from the source file because that sc
   * "times": Timeline.current_time * ticks_per_beat after every tick operation (one entry per tick);
   * the operation ["run", budget]: Timeline.run(stop_when_done=True) driven by the DummyClock; the recording device
     marks the tick boundaries (OutputDevice.tick is called once per timeline tick), so the result lists the calls
-    tick by tick, and how run() ended: "returned" / "exc:<class>" / "budget" (more than [budget] ticks).
+    tick by tick, and how run() ended: "returned" / "exc:<class>" / "budget" (more than [budget] ticks);
+  * the operation ["set_ignore", b]: `timeline.ignore_exceptions = b` on the existing Timeline (config "ignore" is what the
+    constructor was given); it is an operation like any other in the observation list (no calls, "ok");
+  * the CLASS of the exception at every fault site: a stream item {"k": "raise_eval", "expr": name} evaluates a real failing
+    pattern expression of the catalogue FAULT_EXPRS inside next(event_stream) (TypeError from PAdd over a str, 60 + None,
+    ZeroDivisionError from PDiv, KeyError, a user-defined class ...); {"k": "raise_ctor", "variant": name} returns an event
+    dict that makes Event(...) raise (InvalidEventException / ValueError / TypeError); config "dev_fail_exc" and a
+    callback's "exc" name the class raised by the device / the callback; {"k": "raise_stop"} raises a subclass of
+    StopIteration from the pattern (the iterator protocol's end of stream);
+  * "escaped": [[operation index, class name, [names of the classes in its MRO]]] for every exception that left tick().
 """
 import sys, os, json
 
@@ -14,16 +23,158 @@ _ns = {"__name__": "sched_impl_lib"}
 _saved_stdin = sys.stdin
 exec(compile(_src, os.path.join(_here, "sched_impl.py"), "exec"), _ns)
 Driver = _ns["Driver"]
+Rec = _ns["Rec"]
+iso = _ns["iso"]
 
 
 class Budget(BaseException):
     pass
 
 
+class UserFault(Exception):
+    """a user's own exception class"""
+
+
+class UserTypeError(TypeError):
+    """a user's subclass of TypeError"""
+
+
+class UserLookup(KeyError):
+    pass
+
+
+class UserStop(StopIteration):
+    """a subclass of StopIteration: still the end-of-stream signal"""
+
+
+EXC_CLASSES = {c.__name__: c for c in (
+    RuntimeError, TypeError, ValueError, ZeroDivisionError, KeyError, IndexError, AttributeError, AssertionError, OverflowError,
+    NotImplementedError, UnicodeDecodeError, OSError, ArithmeticError, LookupError, NameError, UserFault, UserTypeError, UserLookup)}
+
+
+def raise_class(name, what):
+    c = EXC_CLASSES[name]
+    if c is UnicodeDecodeError:
+        raise UnicodeDecodeError("utf-8", b"\xff", 0, 1, what)
+    raise c(what)
+
+
+def _raiser(name):
+    def fn():
+        raise_class(name, "pattern fault (scripted)")
+    return fn
+
+
+# failing pattern expressions: each builds, from real isobar classes, a pattern whose evaluation raises
+FAULT_EXPRS = {
+    "padd-str": lambda: iso.PSequence(["x"], 1) + 12,                               # TypeError: str + int inside PAdd.__next__
+    "add-none": lambda: iso.PFunc(lambda: 60 + None),                               # TypeError: the commonest live-coding fault
+    "pdiv-zero": lambda: iso.PConstant(60) / iso.PSequence([0]),                    # ZeroDivisionError inside PDiv
+    "pmod-zero": lambda: iso.PConstant(60) % iso.PConstant(0),                      # ZeroDivisionError inside PMod
+    "int-str": lambda: iso.PFunc(lambda: int("sixty")),                             # ValueError
+    "dict-key": lambda: iso.PFunc(lambda: {"a": 60}["b"]),                          # KeyError
+    "pdictkey": lambda: iso.PDictKey({"a": 60}, iso.PConstant("b")),                # KeyError inside PDictKey
+    "list-index": lambda: iso.PFunc(lambda: [60, 62][5]),                           # IndexError
+    "parrayindex": lambda: iso.PArrayIndex([60, 62], iso.PConstant(7)),             # IndexError inside PArrayIndex
+    "attr-none": lambda: iso.PFunc(lambda: None.pitch),                             # AttributeError
+    "pabs-str": lambda: iso.PAbs(iso.PConstant("x")),                               # TypeError inside PAbs
+    "pow-overflow": lambda: iso.PConstant(10.0) ** iso.PConstant(100000),           # OverflowError inside PPow
+    "pdegree-str": lambda: iso.PDegree(iso.PConstant("a"), iso.Scale.major),        # TypeError inside Scale.get
+    "name-error": lambda: iso.PFunc(lambda: undefined_name_of_the_live_coder),      # NameError   # noqa: F821
+    "decode": lambda: iso.PFunc(lambda: b"\xff".decode("utf-8")),                   # UnicodeDecodeError (a ValueError)
+    "assert": lambda: iso.PFunc(_raiser("AssertionError")),
+    "not-implemented": lambda: iso.PFunc(_raiser("NotImplementedError")),           # a RuntimeError
+    "oserror": lambda: iso.PFunc(_raiser("OSError")),
+    "runtime": lambda: iso.PFunc(_raiser("RuntimeError")),
+    "user-class": lambda: iso.PFunc(_raiser("UserFault")),
+    "user-typeerror": lambda: iso.PFunc(_raiser("UserTypeError")),
+    "user-keyerror": lambda: iso.PFunc(_raiser("UserLookup")),
+}
+# event dicts that make Event(...) raise
+CTOR_VARIANTS = {
+    "note+degree": lambda d: dict(d, note=60, degree=1),                            # InvalidEventException
+    "bad-key": lambda d: dict(d, note=60, not_an_event_key=1),                      # ValueError
+    "degree-str": lambda d: dict(d, degree="a"),                                    # ValueError: int("a")
+    "octave-none": lambda d: dict(d, note=60, octave=None),                         # TypeError: int(None)
+    "key-int": lambda d: dict(d, degree=2, key=5),                                  # TypeError: an int is not a Key
+    "transpose-list": lambda d: dict(d, note=60, transpose=[1]),                    # TypeError: int([1])
+}
+
+
+class Rec17(Rec):
+    fail_exc = "RuntimeError"
+
+    def _emit(self, c):
+        k = self.n
+        self.n += 1
+        if self.fail_at is not None and k == self.fail_at:
+            raise_class(self.fail_exc, "device fault (scripted)")
+        self.calls.append(c)
+
+
+class Scripted17(iso.Pattern):
+    """an event stream given by an explicit script; an entry may be a failing pattern expression, evaluated - as a field of
+    a PDict, the way a track's event dict is evaluated - when the entry is reached"""
+    def __init__(self, items, cyclic):
+        self.items, self.pos, self.cyclic = items, 0, cyclic
+
+    def __next__(self):
+        if self.pos >= len(self.items):
+            raise StopIteration
+        it = self.items[self.pos]
+        self.pos += 1
+        if self.cyclic and self.pos == len(self.items):
+            self.pos = 0
+        if isinstance(it, tuple):
+            if it[0] == "expr":
+                field = ("note", "duration", "amplitude", "channel")[len(it[1]) % 4]
+                return next(iso.PDict({"note": 60, "duration": 1, field: FAULT_EXPRS[it[1]]()}))
+            if it[0] == "stop":
+                raise UserStop()
+        if it == "raise":
+            raise RuntimeError("pattern fault (scripted)")
+        return dict(it)
+
+    def reset(self):
+        self.pos = 0
+
+
 class Driver17(Driver):
+    def __init__(self, sc):
+        super().__init__(sc)
+        self.dev.__class__ = Rec17
+        self.dev.fail_exc = sc["config"].get("dev_fail_exc", "RuntimeError")
+
+    def make_cb(self, i, cb):
+        if cb["raise"] == "exc" and cb.get("exc"):
+            def fn():
+                self.dev.calls.append(["cb", i])
+                for o in cb["ops"]:
+                    self.exec_op(o, inside=True)
+                raise_class(cb["exc"], "callback fault (scripted)")
+            return fn
+        return super().make_cb(i, cb)
+
+    def event_dict(self, ev):
+        k = ev["k"]
+        if k == "raise_eval" and ev.get("expr"):
+            return ("expr", ev["expr"])
+        if k == "raise_stop":
+            return ("stop",)
+        if k == "raise_ctor" and ev.get("variant"):
+            return CTOR_VARIANTS[ev["variant"]]({"duration": self.beats(ev.get("dur", self.U))})
+        return super().event_dict(ev)
+
+    def stream(self, s):
+        items = [self.event_dict(e) for e in s["items"]]
+        if any(isinstance(i, tuple) for i in items):
+            return Scripted17(items, s["cyclic"])
+        return super().stream(s)
+
     def run(self):
         sparse, prev, idx = [], [], 0
         times = []
+        escaped = []
         run_result = None
         for o in self.sc["ops"]:
             if o[0] == "run":
@@ -56,9 +207,13 @@ class Driver17(Driver):
                         self.tl.tick(); res = "ok"
                     except StopIteration:
                         res = "stop"
-                    except Exception:
+                    except Exception as e:
                         res = "exc"
+                        escaped.append([idx, type(e).__name__, [c.__name__ for c in type(e).__mro__ if c is not object]])
                     times.append(self.tl.current_time * self.sc["tpb"])
+                elif o[0] == "set_ignore":
+                    self.tl.ignore_exceptions = bool(o[1])
+                    res = "ok"
                 else:
                     res = self.exec_op(o)
                 ids = self.ids()
@@ -66,10 +221,35 @@ class Driver17(Driver):
                     sparse.append([idx, self.dev.calls, res, ids])
                 prev = ids
                 idx += 1
-        out = {"obs": sparse, "now_ticks": self.tl.current_time * self.sc["tpb"], "times": times}
+        out = {"obs": sparse, "now_ticks": self.tl.current_time * self.sc["tpb"], "times": times, "escaped": escaped}
         if run_result is not None:
             out["run"] = run_result
         return out
+
+
+def fault_classes():
+    """what each catalogue entry raises: {name: [class name, MRO names]} - measured, not declared"""
+    out = {}
+    for name, mk in FAULT_EXPRS.items():
+        try:
+            next(iso.PDict({"note": mk(), "duration": 1}))
+            out["expr:" + name] = None
+        except Exception as e:
+            out["expr:" + name] = [type(e).__name__, [c.__name__ for c in type(e).__mro__ if c is not object]]
+    dev = Rec(None)
+    tl = iso.Timeline(120, output_device=dev, clock_source=iso.DummyClock(ticks_per_beat=4))
+    probe_track = tl.schedule({"note": 60})
+    for name, mk in CTOR_VARIANTS.items():
+        try:
+            from isobar.timelines.event import Event
+            Event(mk({"duration": 1.0}), tl.defaults, track=probe_track)
+            out["ctor:" + name] = None
+        except Exception as e:
+            out["ctor:" + name] = [type(e).__name__, [c.__name__ for c in type(e).__mro__ if c is not object]]
+    for name, c in EXC_CLASSES.items():
+        out["class:" + name] = [name, [k.__name__ for k in c.__mro__ if k is not object]]
+    out["class:UserStop"] = ["UserStop", [k.__name__ for k in UserStop.__mro__ if k is not object]]
+    return out
 
 
 def main():
@@ -85,7 +265,12 @@ def main():
         except Exception as e:
             import traceback
             out.append({"driver_error": "%s: %s" % (type(e).__name__, e), "tb": traceback.format_exc()[-1500:]})
-    json.dump({"results": out}, sys.stdout)
+    res = {"results": out}
+    if req.get("catalogue"):
+        import io, contextlib
+        with contextlib.redirect_stdout(io.StringIO()), contextlib.redirect_stderr(io.StringIO()):
+            res["catalogue"] = fault_classes()
+    json.dump(res, sys.stdout)
 
 
 main()
